@@ -1175,8 +1175,9 @@ func (app *App) serverErrorHandler(fctx *fasthttp.RequestCtx, err error) {
 	defer app.ReleaseCtx(c)
 
 	var (
-		errNetOP *net.OpError
-		netErr   net.Error
+		errNetOP   *net.OpError
+		netErr     net.Error
+		timeoutErr interface{ Timeout() bool }
 	)
 
 	switch {
@@ -1190,7 +1191,9 @@ func (app *App) serverErrorHandler(fctx *fasthttp.RequestCtx, err error) {
 		err = ErrRequestEntityTooLarge
 	case errors.Is(err, fasthttp.ErrGetOnly):
 		err = ErrMethodNotAllowed
-	case strings.Contains(err.Error(), "timeout"):
+	case errors.As(err, &timeoutErr) && timeoutErr.Timeout():
+		// a timeout is recognised by the error's type, never by its text: the text of a parse error
+		// quotes the bytes the client sent
 		err = ErrRequestTimeout
 	default:
 		err = NewError(StatusBadRequest, err.Error())
